@@ -92,7 +92,14 @@ class PyM:
         r = e.cpu.regs
         sch = e._scheduler
         lcd_meta, lcd_payload = e._capture_lcd_snapshot()
-        kb = e.keyboard.snapshot_state() if hasattr(e, "keyboard") else None
+        # the keyboard is projected from its attributes, not through snapshot_state() (which is part of what is being checked)
+        km = getattr(e, "keyboard", None)
+        km = getattr(km, "_matrix", km)
+        kb = None
+        if km is not None:
+            kb = {"kol": km.kol, "koh": km.koh, "kil": km._kil_latch, "pressed": sorted(km._pressed_keys), "head": km._head, "tail": km._tail,
+                  "fifo": list(km._fifo), "keys": sorted((str(k), bool(v.pressed), bool(v.debounced), int(v.press_ticks), int(v.release_ticks), int(v.repeat_ticks))
+                                                         for k, v in km._key_states.items() if (v.pressed or v.debounced or v.press_ticks or v.release_ticks))}
         return {
             "err": 1 if err else 0,
             "pw": "halt" if getattr(e.cpu.state, "halted", False) else "run",
@@ -100,7 +107,8 @@ class PyM:
             "imem": _h(bytes(e.memory.get_internal_memory_bytes())),
             "ram": _h(bytes(e.memory.external_memory[0xB8000:0xC0000])),
             "lcd": _h(bytes(lcd_payload) + json.dumps(lcd_meta, sort_keys=True, default=str).encode()),
-            "kbd": _h(json.dumps(kb, sort_keys=True, default=str).encode()),
+            "kbd": {"kil": kb["kil"], "ko": kb["kol"] * 256 + kb["koh"], "pressed": _h(json.dumps(kb["pressed"]).encode()),
+                    "fifo": _h(json.dumps([kb["fifo"], kb["head"], kb["tail"]]).encode()), "keys": _h(json.dumps(kb["keys"]).encode())} if kb else {"kil": 0},
             "timers": {"en": int(bool(sch.enabled)), "pm": int(sch.mti_period), "ps": int(sch.sti_period),
                        "nm": int(sch.next_mti) if sch.mti_period else 0, "ns": int(sch.next_sti) if sch.sti_period else 0},
             "irq": {"pend": int(bool(e._irq_pending)), "inint": int(bool(e._in_interrupt)), "src": e._irq_source.name if e._irq_source else "",
@@ -161,7 +169,7 @@ class RsM:
             "imem": _h(bytes(d["imem"])),
             "ram": _h(ram),
             "lcd": int(d["lcd_hash"][:7], 16) if d.get("lcd_hash") else 0,
-            "kbd": int(d["kb_fifo"] or 0),
+            "kbd": {"fifo": int(d["kb_fifo"] or 0)},
             "timers": {"en": int(bool(t["enabled"])), "pm": int(t["pm"]), "ps": int(t["ps"]), "nm": int(t["next_mti"]) if t["pm"] else 0,
                        "ns": int(t["next_sti"]) if t["ps"] else 0, "kbirq": int(bool(t["kb_irq_enabled"]))},
             "irq": {"pend": int(bool(t["irq_pending"])), "inint": int(bool(t["in_interrupt"])), "src": str(t["irq_source"]),
@@ -185,10 +193,17 @@ def scripts_for(tier: str, seed: int) -> List[List[Dict[str, Any]]]:
     n = 64 if tier == "quick" else 600
     for i in range(n):
         s = c12.random_script(rnd, rnd.choice([8, 12, 18]))
-        # matrix keys held across snapshot points
-        if rnd.random() < 0.5:
-            k = rnd.randrange(0, len(s))
-            s.insert(k, {"ev": "Key", "press": True, "code": 0x21, "name": "KEY_A" if False else None})
+        # matrix keys pressed, held and released across snapshot points, with the columns strobed and KIL read (debounce windows)
+        if rnd.random() < 0.7:
+            code = rnd.choice([0x01, 0x03, 0x21, 0x0A])
+            k = rnd.randrange(0, max(1, len(s) - 4))
+            s.insert(k, {"ev": "Step", "ins": {"k": "STROBE", "v": 0xFF}})
+            s.insert(k + 1, {"ev": "Key", "press": True, "code": code, "name": None})
+            hold = rnd.randint(2, 9)
+            rel = min(len(s), k + 2 + hold)
+            s.insert(rel, {"ev": "Key", "press": False, "code": code, "name": None})
+            for _ in range(rnd.randint(0, 3)):
+                s.insert(rnd.randrange(k + 2, len(s) + 1), {"ev": "Step", "ins": {"k": "READKIL"}})
         out.append(s)
     return out
 
@@ -331,7 +346,7 @@ def cross_records(mh, vh, shard: int, tmp: Path, scripts) -> List[Dict[str, Any]
             rid += 1
 
             def wrap(c):
-                return {"err": 0, "pw": c["pw"], "regs": {k: c[k] for k in ("pc", "s", "f", "ba", "i")}, "imem": c["imr"] * 256 + c["isr"], "ram": 0, "lcd": 0, "kbd": 0,
+                return {"err": 0, "pw": c["pw"], "regs": {k: c[k] for k in ("pc", "s", "f", "ba", "i")}, "imem": c["imr"] * 256 + c["isr"], "ram": 0, "lcd": 0, "kbd": {"fifo": 0},
                         "timers": {"nm": c["nm"], "ns": c["ns"]}, "irq": {"inint": c["inint"], "pend": c["pend"]}, "cnt": {"cyc": c["cyc"], "instr": c["instr"]}}
             recs.append({"id": shard * 1_000_000 + 500_000 + rid, "impl": f"{saver_impl}->{loader.impl}", "kind": "cross", "cls": want["pw"] + ("+inint" if want["inint"] else ""),
                          "loaderr": 1 if lerr else 0, "orig": [wrap(want)], "rest": [wrap(got)], "lerr": lerr or "",
@@ -382,8 +397,9 @@ def _job(arg):
         r = byid[int(x[0])]
         k = int(x[2])
         detail = ""
-        if str(x[1]) in ("SameFuture", "CrossLoad") and 1 <= k <= len(r["orig"]) and str(x[3]) in r["orig"][k - 1]:
-            detail = f"original {r['orig'][k - 1][str(x[3])]} restored {r['rest'][k - 1][str(x[3])]}"
+        comp0 = str(x[3]).split(".")[0]
+        if str(x[1]) in ("SameFuture", "CrossLoad") and 1 <= k <= len(r["orig"]) and comp0 in r["orig"][k - 1]:
+            detail = f"original {r['orig'][k - 1][comp0]} restored {r['rest'][k - 1][comp0]}"
         bad.append((str(x[1]), r["impl"], str(x[3]), r["cls"], k, detail, r["lerr"], r["replay"]))
     return len(recs), bad[:3000], len(bad), layouts
 
